@@ -771,6 +771,11 @@ class BinaryOp(Expr):
             Operator.EXP: lambda a, b: limit(a ** b),
         }[self.op](left, right)
 
+        if isinstance(result, complex):
+            # a negative base to a fractional power: an error at run
+            # time, so not a value that can be computed here
+            raise OverflowError
+
         if self.type == Type.SINGLE:
             # a SINGLE result has single precision, like at run time
             result = self.type.coerce(result)
